@@ -175,6 +175,14 @@ class Verifier(Calls):
                 fact = z3.And(fact, z3.Length(Val.elems(t)) == len(ty.strip()[1:-1].split(",")))
         elif kind == "bytes":
             fact = Val.is_bytesv(t)
+        if fact is not None and getattr(self, "goal_facts", None) is not None and os.environ.get("VERIF_GOAL_TYPING") \
+                and not is_prestate_term(z3.simplify(t)):
+            # EXPERIMENTAL (VERIF_GOAL_TYPING=1, off by default): when evaluating a GOAL, a read of the CURRENT heap is well typed only
+            # if that can be shown -- the typing fact becomes part of the goal instead of an assumption.  With the default (assumption)
+            # a clause that reads an object of the wrong shape under a guard that holds is vacuously provable (known instance: seed
+            # C10_j, found by the stand-in only); switching this on needs shape facts at allocation sites that most specs lack.
+            self.goal_facts.append(z3.Implies(z3.And(guards), fact) if guards else fact)
+            return
         if fact is not None:
             self.assumed_reads.add(key)
             self.keepalive.append(t)
